@@ -112,6 +112,9 @@ func writeEvidence(prop, tier string, seed int64, conf propConf, m *workerResult
 }
 
 var rules = map[string]string{
+	"C08": "each evaluation is one document (all per-document features) or one (document, cursor position) pair (eight requests); distinct by construction; distinct_nontrivial counts the documents whose deviation puts a multi-byte / multi-unit character or a neighbouring entry before a reported range",
+	"C04": "each evaluation is one (document, configuration) pair formatted once by the real server; distinct by construction; non-trivial = the formatter returned edits that change the text",
+	"C05": "each evaluation is one (document, configuration) pair formatted twice by the real server; distinct by construction; non-trivial = the first run changed the text (so the second run is checked on formatted text)",
 	"C07": "each evaluation is one (journal, damaged entry, damage) triple, distinct by construction; non-trivial = the damaged text has at least one parse error",
 	"C02": "each evaluation is one single-transaction document opened on the real server (parameter vectors are distinct by construction; respellings are distinct texts of the same model); non-trivial = unbalanced, or balanced only through a cost conversion, a virtual posting exclusion or an absorbed remainder",
 	"C03": "each evaluation is one journal rendered from the model with a distinct set of deviations (no two from one parameter group) and parsed once; distinct_nontrivial counts distinct rendered texts with at least one deviation (measured by hashing the text)",
@@ -124,6 +127,9 @@ var rules = map[string]string{
 }
 
 var assumptions = map[string][]string{
+	"C08": {"the rendered text's position map is the ground truth (nothing is parsed by the oracle)", "cursor positions 0..length of each line; positions inside a surrogate pair are not sent"},
+	"C04": {"the project's parser is the judge of meaning on re-parse (faithful on G by C03)", "undeclared-* diagnostics off so that format directives do not add diagnostics"},
+	"C05": {"columns are counted in characters (runes), as the property states"},
 	"C07": {"the undamaged journal parses silently (checked; C03)", "undeclared-account/commodity diagnostics switched off so that damaging a declaration cannot legitimately change other entries' diagnostics"},
 	"C02": {"balanced-virtual postings are pooled with ordinary ones, as the property states", "numbers with exactly one mark followed by exactly three digits are outside G"},
 	"C03": {"grammar G as fixed in DESIGN.md §4.2 (numbers with exactly one mark followed by exactly three digits are excluded as contested)"},
